@@ -1803,7 +1803,28 @@ def gen_compiler_schema(repo):
     return text, rows
 
 
+
+def gen_visitor_reach(repo):
+    """C04: does the validating visitor also validate the attributes of the type references it does not visit
+    (enum underlying type, interface bases)?"""
+    T, rel = "VisitorReach", "slicec/src/validators/mod.rs"
+    src = read(repo, rel, T)
+    ve = fn_body(src, "visit_enum", T, rel)
+    vi = fn_body(src, "visit_interface", T, rel)
+    if "validate_attributes(enum_def" not in ve or "validate_attributes(interface" not in vi:
+        raise ExtractionError(T, rel, "visit_enum / visit_interface no longer validate the attributes of the definition itself")
+    und = bool(re.search(r"if\s+let\s+Some\((\w+)\)\s*=\s*&enum_def\.underlying\s*\{\s*attribute::validate_attributes_of\(\1\s*,", ve))
+    bas = bool(re.search(r"for\s+(\w+)\s+in\s+&interface\.bases\s*\{\s*attribute::validate_attributes_of\(\1\s*,", vi))
+    if und != bas:
+        raise ExtractionError(T, rel, "only one of enum underlying types / interface bases has its attributes validated: not modelled")
+    text = "-- GENERATED by translator/extract.py from slicec/src/validators/mod.rs — do not edit.\nnamespace Slicec.Gen\n" \
+           "/-- attributes on enum underlying types and interface bases are validated for placement and repetition -/\n" \
+           f"def unvisitedTypeRefAttrsValidated : Bool := {'true' if und else 'false'}\nend Slicec.Gen\n"
+    return text, 1
+
+
 TABLES = {
+    "VisitorReach": gen_visitor_reach,
     "EncoderShapes": gen_encoder_shapes,
     "CompilerSchema": gen_compiler_schema,
     "CommentKeywords": gen_comment_keywords,
